@@ -366,7 +366,8 @@ let () =
     (* brackets: every character occurring in the pairs table, in code point order *)
     let chars = List.sort_uniq compare (List.concat_map (fun ((o, c), _) -> [int_of_n o; int_of_n c]) bidi_pairs_table) in
     List.iter (fun cp -> match hardcoded_bracket (n_of_int cp) with
-      | Some (key, op) -> Printf.printf "B %x %x %d\n" cp (int_of_n key) (if op then 1 else 0)
+      | Some (key, op) -> Printf.printf "B %x %x %d\n" cp (int_of_n key) (if op then 1 else 0);
+                          let k = class_name (hardcoded_class (n_of_int cp)) in Printf.printf "BC %x %s %s\n" cp k k
       | None -> ()) chars;
     List.iter (fun (nm, v) -> Printf.printf "F %s %x %s\n" nm (int_of_n v) (class_name (hardcoded_class v)))
       ["ALM", fc_ALM; "LRM", fc_LRM; "RLM", fc_RLM; "LRI", fc_LRI; "RLI", fc_RLI; "FSI", fc_FSI; "PDI", fc_PDI;
